@@ -1,5 +1,13 @@
 // C15: the persisted-query cache binds a hash only to the text that hashes to it.
 //
+// The real caches (graphql.MapCache, graphql/handler/lru) are observed ONLY
+// through the public graphql.Cache API (Get / Add) by a recording decorator:
+// any implementation of them is judged by its behaviour.
+//
+//  0. Phase L (lru.go): spec/Lru.tla - the LRU as a machine of its own - is
+//     checked exhaustively by TLC and the real lru.New[string](N) is driven
+//     through every edge of its state graph, state-identification suffixes
+//     and long random histories; TLC judges every Get (LruTrace).
 //  1. TLC checks spec/Apq.tla exhaustively (MC_Apq*.cfg: all request forms,
 //     histories of any length; MC_ApqHist*.cfg: with the history variable)
 //     and prints the complete labelled state graph of the bounded model.
@@ -9,6 +17,9 @@
 //     cache contents and recency order, the text handed to the executor, the
 //     response class, the cache operations and the resolver log are compared
 //     with the successor state and outcome TLC printed.
+//     Phase E: the same over MC_ApqEvict*.cfg (LRU capacity 1..3, more texts
+//     than capacity: the cache is full and evicts), plus one scenario per
+//     evicting edge (hash-only for the evicted hash, re-registration of it).
 //  3. Mechanism B: long random histories (sequential and with concurrent
 //     clients, POST bodies and GET query strings, bigger alphabet, LRU
 //     capacity 1..4 with eviction) are recorded and validated by TLC against
@@ -52,7 +63,6 @@ func main() {
 	rep := &reporter{c: c, seenKeys: map[string]int{}, soft: map[string]int{}, drifts: map[string]int{}}
 	scratch := vlib.Work("C15")
 	_ = os.RemoveAll(scratch)
-	t0 := time.Now()
 
 	// ---- 1. model checking -------------------------------------------------
 	cfg, hist := "MC_Apq.cfg", "MC_ApqHist.cfg"
@@ -70,6 +80,10 @@ func main() {
 		}
 		histDone <- r
 	}()
+	// ---- 0. phase L: the LRU itself ------------------------------------------
+	ls := rep.runLru(scratch, thorough, seed)
+	tMC0 := time.Now()
+
 	mc, err := vlib.RunTLC(vlib.TLCOpts{Module: "MC_Apq", Config: cfg, Workers: 1, Coverage: true, Scratch: scratch + "/mc", Timeout: 10 * time.Minute})
 	if err != nil {
 		vlib.Infra("TLC: %v", err)
@@ -88,7 +102,7 @@ func main() {
 		}
 	}
 	c.AddStates(mc.Distinct, mc.Generated)
-	tMC := time.Since(t0).Seconds()
+	tMC := time.Since(tMC0).Seconds()
 	fmt.Fprintf(os.Stderr, "[c15] TLC %s: %d distinct states, %d generated, %.1fs\n", cfg, mc.Distinct, mc.Generated, mc.WallS)
 
 	// ---- 2. mechanism A: replay of every edge ------------------------------
@@ -107,6 +121,9 @@ func main() {
 	paths, err := g.tours(rand.New(rand.NewSource(seed)), maxLen)
 	if err != nil {
 		vlib.Infra("edge cover: %v", err)
+	}
+	for i := range paths {
+		paths[i] = g.withSweep(paths[i], texts)
 	}
 	tcp := loopbackWorks()
 	type mode struct {
@@ -146,6 +163,92 @@ func main() {
 	fmt.Fprintf(os.Stderr, "[c15] A: %d states, %d edges, %d covering paths (max length %d), %d replays (%d left the implementation-level machine), %d requests, %.1fs\n",
 		len(g.nodes), len(g.edges), len(paths), maxLen, nreplays, ndrifted, nreq, time.Since(tA).Seconds())
 
+	// ---- 2b. phase E: the LRU full and evicting behind the real extension ------
+	tE := time.Now()
+	ecfg, etexts := "MC_ApqEvict.cfg", []string{"q1", "q2", "q3", "q4"}
+	if thorough {
+		ecfg, etexts = "MC_ApqEvict_thorough.cfg", []string{"q1", "q2", "q3", "q4", "q5"}
+	}
+	emc, err := vlib.RunTLC(vlib.TLCOpts{Module: "MC_Apq", Config: ecfg, Workers: 1, Coverage: true, Scratch: scratch + "/mc-evict", Timeout: 10 * time.Minute})
+	if err != nil {
+		vlib.Infra("TLC: %v", err)
+	}
+	if !emc.OK {
+		vlib.Infra("TLC reports an error on the model itself (%s):\n%s", ecfg, tailStr(emc.Output, 4000))
+	}
+	for _, a := range []string{"HashOnlyHit", "HashOnlyMiss", "TextHashMismatch", "TextHashOK"} {
+		if !actionTaken(emc.Output, a, "Apq") {
+			vlib.Infra("vacuous model: action %s of Apq was never taken (%s)", a, ecfg)
+		}
+	}
+	c.AddStates(emc.Distinct, emc.Generated)
+	eg, err := parseGraph(emc.Printed)
+	if err != nil {
+		vlib.Infra("state graph (%s): %v", ecfg, err)
+	}
+	if int64(len(eg.edges)) != emc.Generated-int64(len(eg.inits)) {
+		vlib.Infra("state graph incomplete (%s): %d edges printed, TLC generated %d states (%d initial)", ecfg, len(eg.edges), emc.Generated, len(eg.inits))
+	}
+	epaths, err := eg.tours(rand.New(rand.NewSource(seed+77)), maxLen)
+	if err != nil {
+		vlib.Infra("edge cover (%s): %v", ecfg, err)
+	}
+	for i := range epaths {
+		epaths[i] = eg.withSweep(epaths[i], etexts)
+	}
+	nTours := len(epaths)
+	scen := eg.evictionScenarios(etexts)
+	if len(scen) == 0 {
+		vlib.Infra("vacuous eviction model: no edge of %s evicts", ecfg)
+	}
+	epaths = append(epaths, scen...)
+	var ehs []*history
+	ereq, edrifted := 0, 0
+	for i, p := range epaths {
+		st := p[0].S
+		for j, m := range modes {
+			if i >= nTours && j == 1 {
+				continue // scenarios: POST and mixed only
+			}
+			ro := rigOpts{Kind: st.Kind, Cap: st.Cap, QCache: m.qcache, TCP: m.tcp && i%4 == 0}
+			id := fmt.Sprintf("e%03d-%s", i, m.method)
+			if i >= nTours {
+				id = fmt.Sprintf("evict%03d-%s", i-nTours, m.method)
+			}
+			h, err := rep.replayPath(id, p, etexts, etexts, []string{"x:rand"}, ro, m.method, seed*1000033+int64(i)*11+int64(j))
+			if err != nil {
+				vlib.Infra("replay: %v", err)
+			}
+			if i >= nTours {
+				h.Mech = "E: eviction scenario derived from the state graph (full LRU, evicting registration, hash-only for the evicted hash, re-registration)"
+			} else {
+				h.Mech = "E: replay of a TLC-generated tour over a full, evicting LRU"
+			}
+			ehs = append(ehs, h)
+			ereq += len(h.Steps)
+			if h.Drifted {
+				edrifted++
+			}
+		}
+		if i == nTours {
+			var s []string
+			for _, e := range p {
+				s = append(s, fmt.Sprintf("%s %s => %s/%s", e.A.form(), e.A.Hash, e.O.Class, e.O.Submit))
+			}
+			c.Sample(map[string]any{"mechanism": "E", "cache": st.Kind, "cap": st.Cap, "eviction_scenario": s})
+		}
+	}
+	evSeenE, reAddE := 0, 0
+	for _, h := range ehs {
+		evSeenE += h.EvSeen
+		reAddE += h.ReAdded
+	}
+	if (evSeenE == 0 || reAddE == 0) && len(rep.drifts) == 0 {
+		vlib.Infra("vacuous eviction phase: %d hash-only requests for an evicted hash, %d re-registrations of an evicted hash", evSeenE, reAddE)
+	}
+	fmt.Fprintf(os.Stderr, "[c15] E: TLC %s: %d states, %d edges; %d covering tours + %d eviction scenarios, %d replays (%d left the implementation-level machine), %d requests, %d hash-only requests for an evicted hash, %d re-registrations of an evicted hash, %.1fs\n",
+		ecfg, emc.Distinct, len(eg.edges), nTours, len(scen), len(ehs), edrifted, ereq, evSeenE, reAddE, time.Since(tE).Seconds())
+
 	// ---- 3. mechanism B: random histories validated by TLC ------------------
 	tB := time.Now()
 	nh, hlen := 36, 250
@@ -175,7 +278,6 @@ func main() {
 	// what the histories exercised (non-vacuity of B)
 	stats := map[string]int{}
 	for _, h := range hs {
-		prev := map[string]bool{}
 		for _, s := range h.Steps {
 			c.AddEvals(1)
 			k := s.Got.Out.Class
@@ -184,13 +286,10 @@ func main() {
 			}
 			stats[s.Req.form()+"->"+k]++
 			c.Class("B/" + h.Rig.Kind + "/" + s.Req.form() + "->" + k)
-			if ops := s.Got.Out.Ops; h.Rig.Kind == "lru" && len(ops) >= 1 && ops[len(ops)-1].Op == "add" && !prev[ops[len(ops)-1].H] && len(prev) == h.Rig.Cap {
-				stats["lru:evictions"]++
-			}
-			prev = map[string]bool{}
-			for _, e := range s.Got.State.Ents {
-				prev[e[0]] = true
-			}
+		}
+		if h.Rig.Kind == "lru" {
+			stats["lru:evictions"] += h.EvSeen
+			stats["lru:readded"] += h.ReAdded
 		}
 	}
 	if len(hs) > 0 && len(hs[1].Steps) > 0 {
@@ -215,7 +314,7 @@ func main() {
 	}
 	// the VERDICT: every observed history (tours of A, histories of B) against the property level
 	tV := time.Now()
-	all := append(append([]*history{}, ahs...), hs...)
+	all := append(append(append([]*history{}, ahs...), ehs...), hs...)
 	badH, events, err := rep.validateProp(all, scratch+"/trace")
 	if err != nil {
 		vlib.Infra("property-level trace validation: %v", err)
@@ -247,8 +346,8 @@ func main() {
 		fmt.Fprintf(os.Stderr, "[c15] implementation-level comparison of the random histories stopped: %v\n", err)
 		rep.drift("B:comparison-stopped", err.Error())
 	}
-	fmt.Fprintf(os.Stderr, "[c15] B: %d histories x %d requests (%d concurrent), %d follow the implementation-level machine exactly (%d not compared), hash-only hits %d / misses %d, evictions %d, %.1fs\n",
-		len(hs), hlen, nh/3, implOK, implUnchecked, hits, misses, stats["lru:evictions"], time.Since(tB).Seconds())
+	fmt.Fprintf(os.Stderr, "[c15] B: %d histories x %d requests (%d concurrent), %d follow the implementation-level machine exactly (%d not compared), hash-only hits %d / misses %d, of which for an evicted hash %d, re-registrations of an evicted hash %d, %.1fs\n",
+		len(hs), hlen, nh/3, implOK, implUnchecked, hits, misses, stats["lru:evictions"], stats["lru:readded"], time.Since(tB).Seconds())
 
 	// ---- history-variable model check (ran in parallel) ----------------------
 	hr := <-histDone
@@ -289,12 +388,24 @@ func main() {
 	}
 	c.Set("model", map[string]any{"config": cfg, "distinct_states": mc.Distinct, "edges": len(g.edges), "covering_paths": len(paths),
 		"replays": nreplays, "replayed_requests": nreq, "history_config": hist, "history_states": hr.Distinct, "history_transitions": hr.Generated})
+	c.Set("lru_model", map[string]any{"config": "MC_Lru.cfg", "distinct_states": ls.States, "edges": ls.Edges,
+		"history_states": ls.HistStates, "history_transitions": ls.HistTrans,
+		"tours": ls.Tours, "tour_operations": ls.TourOps, "edge_instances_by_action": ls.ByAction,
+		"state_identification_runs": ls.IdentRuns, "state_identification_operations": ls.IdentOps, "state_identification_differences": ls.IdentDiffs,
+		"random_histories": ls.Random, "random_operations": ls.RandomOps, "get_hits": ls.Hits, "get_misses": ls.Misses, "visible_evictions": ls.Evicts,
+		"lines_judged_by_tlc": ls.Lines, "histories_leaving_property_level": ls.BadHistories,
+		"meaning": "phase L: spec/Lru.tla (capacity 1..3, 4 keys, 2 values) checked exhaustively; the real lru.New[string](N) driven through every edge (tours), every edge followed by a characterising suffix that identifies contents and recency order by replay, and random histories; observed only through Get/Add; every Get judged by TLC (LruTrace): a hit returning a value never Added under that key is the violation, everything else about hit/miss/recency is implementation-level drift"})
+	c.Set("eviction_model", map[string]any{"config": ecfg, "distinct_states": emc.Distinct, "edges": len(eg.edges), "covering_tours": nTours, "eviction_scenarios": len(scen),
+		"replays": len(ehs), "replayed_requests": ereq, "hash_only_requests_for_an_evicted_hash": evSeenE, "re_registrations_of_an_evicted_hash": reAddE,
+		"meaning": "phase E: Apq composed with the Lru machine (Apq!CacheIsLru) for LRU capacity 1..3 with more valid texts than capacity; every edge replayed through the real AutomaticPersistedQuery{Cache: lru.New[string](N)} behind a real handler, plus one scenario per evicting edge (hash-only for the evicted hash, re-registration of it, hash-only for both); verdict by ApqPropTrace"})
 	c.Set("trace_validation", map[string]any{"histories": len(hs), "requests_each": hlen, "concurrent_histories": nh / 3,
-		"lines_validated_property_level": events, "histories_leaving_property_level": badH, "random_histories_matching_impl_level": implOK, "hash_only_hits": hits, "hash_only_misses": misses, "lru_evictions": stats["lru:evictions"]})
-	c.Set("wall_s_by_stage", map[string]any{"tlc_model": tMC, "replay": tB.Sub(tA).Seconds(), "random_histories": time.Since(tB).Seconds()})
+		"lines_validated_property_level": events, "histories_leaving_property_level": badH, "random_histories_matching_impl_level": implOK, "hash_only_hits": hits, "hash_only_misses": misses,
+		"hash_only_requests_for_an_evicted_hash": stats["lru:evictions"], "re_registrations_of_an_evicted_hash": stats["lru:readded"]})
+	c.Set("wall_s_by_stage", map[string]any{"lru_phase_tlc": ls.TLCs, "lru_phase_replay": ls.Replay, "tlc_model": tMC, "replay": tE.Sub(tA).Seconds(), "eviction_phase": tB.Sub(tE).Seconds(), "random_histories": time.Since(tB).Seconds()})
 	c.Set("exhaustive", true)
-	c.Set("rule", "A: TLC enumerates the complete labelled state graph of the implementation-level machine of Apq for the bounded alphabet (texts x request forms x cache map/LRU cap); every edge is replayed on the real server at least 3 times (POST, GET, mixed+query cache) inside tours from the initial state and compared exactly (differences = impl_level_drift); a case class is (cache kind, request form, specification outcome). B: seeded random histories over a larger alphabet, recorded on the real server. VERDICT: every observed history of A and B is validated by TLC against the property-level relation Apq!PropRel (ApqPropTrace); a case class is (cache kind, request form, observed outcome class). A case is non-trivial by construction: every class is a distinct (form, outcome) pair; evaluations = requests sent.")
-	c.Assume("the inspection of the LRU (reflection on the wrapped hashicorp cache: Keys, Peek) does not change its recency order")
+	c.Set("rule", "L: TLC enumerates the complete labelled state graph of the LRU machine Lru.tla (4 keys x 2 values x capacity 1..3); every edge is replayed on the real lru.New[string](N) in tours and once more followed by a characterising suffix; a case class is (capacity, action of Lru.tla); random histories: class (capacity, number of keys). E: like A over the eviction model (LRU only, more texts than capacity) plus one scenario per evicting edge. A: TLC enumerates the complete labelled state graph of the implementation-level machine of Apq for the bounded alphabet (texts x request forms x cache map/LRU cap); every edge is replayed on the real server at least 3 times (POST, GET, mixed+query cache) inside tours from the initial state and compared exactly (differences = impl_level_drift); a case class is (cache kind, request form, specification outcome). B: seeded random histories over a larger alphabet, recorded on the real server. VERDICT: every observed history of A and B is validated by TLC against the property-level relation Apq!PropRel (ApqPropTrace); a case class is (cache kind, request form, observed outcome class). A case is non-trivial by construction: every class is a distinct (form, outcome) pair; evaluations = requests sent.")
+	c.Assume("the real caches are observed only through the public graphql.Cache API (Get / Add) by a recording decorator; what the specification calls the cache at the property level is the OBSERVED BINDING (Add(k,v) and a Get hit (k,v) set k -> v, a Get miss forgets k); a wrong binding that no Get ever shows is not seen (every tour / history ends with a hash-only request for every hash)")
+	c.Assume("a fresh cache built with the same constructor and driven through the same operations is in the same state (state identification by replay in phase L)")
 	c.Assume("the Cache decorator serialises cache operations with its own mutex; a request performs at most one cache operation (checked), which is its linearisation point in concurrent histories")
 	c.Assume("SHA-256 is injective on the concrete texts used (the specification's HashOf is injective on the alphabet)")
 	c.Assume("a rejection is any error response without execution; PersistedQueryNotFound is recognised by its message")
